@@ -107,10 +107,17 @@ def cut_region(text, start_re, end_re, what):
     ms = list(re.finditer(start_re, clean))
     if len(ms) != 1:
         raise ExtractionDrift("%s: region start %r matched %d times" % (what, start_re, len(ms)))
+    line = clean.count('\n', 0, ms[0].start()) + 1
+    if end_re is None:
+        # brace-matched block (struct/enum definition) plus the trailing ';'
+        j = clean.index('{', ms[0].start())
+        k = match_close(clean, j)
+        while clean[k+1].isspace(): k += 1
+        if clean[k+1] == ';': k += 1
+        return line, clean[ms[0].start():k+1]
     me = re.compile(end_re).search(clean, ms[0].end())
     if not me:
         raise ExtractionDrift("%s: region end %r not found" % (what, end_re))
-    line = clean.count('\n', 0, ms[0].start()) + 1
     return line, clean[ms[0].start():me.end()]
 
 # ---------------------------------------------------------------- generic rewrites (R4, R11)
